@@ -73,6 +73,8 @@ def main():
     finally:
         sh("git -C /repo checkout -- .")
         sh("git -C /repo clean -fd -e verif_hooks.go")
+        # evidence written while the mutant was applied is not evidence about the tree: restore the committed files
+        sh("git -C /verif checkout -- evidence")
     meta["checks"] = results
     meta["caught_by"] = [c for c, r in results.items() if r["exit"] == 1 and any(l.startswith("VIOLATION") for l in r["lines"])]
     dst = "/verif/seeded/%s" % name
